@@ -188,7 +188,11 @@ def run_check(mod, tier: str, seed: int, jobs: int, cap_s: Optional[float] = Non
                 break
     else:
         ctx = mp.get_context("fork")
-        with ctx.Pool(min(jobs, len(items)), initializer=_worker_init, initargs=(mod.__name__,)) as pool:
+        # ISOLATE_PARTITIONS: every partition runs in a freshly forked worker (cold library state: caches, module-level
+        # objects), so that a failure found in a partition is reproducible from that partition alone
+        isolate = 1 if getattr(mod, "ISOLATE_PARTITIONS", False) else None
+        with ctx.Pool(min(jobs, len(items)), initializer=_worker_init, initargs=(mod.__name__,),
+                      maxtasksperchild=isolate) as pool:
             it = pool.imap_unordered(_worker_run, work, chunksize=1)
             while True:
                 try:
@@ -241,7 +245,7 @@ def run_check(mod, tier: str, seed: int, jobs: int, cap_s: Optional[float] = Non
     # --- violations -------------------------------------------------------------------------------------------------
     findings = load_known_findings()
     seen_known = {}
-    new_by_sig: Dict[str, dict] = {}
+    cands: Dict[str, List[dict]] = {}
     n_new = 0
     for v in total.violations:
         k = _match_known(prop, v, findings)
@@ -249,18 +253,27 @@ def run_check(mod, tier: str, seed: int, jobs: int, cap_s: Optional[float] = Non
             seen_known.setdefault(k["signature"] + json.dumps(k.get("match", {}), sort_keys=True), (k, v))
             continue
         n_new += 1
-        key = v["kind"]
-        if key not in new_by_sig and len(new_by_sig) < MAX_REPORTED:
-            new_by_sig[key] = v
+        if v["kind"] in cands or len(cands) < MAX_REPORTED:
+            cands.setdefault(v["kind"], []).append(v)
     for k, v in seen_known.values():
         print(f"KNOWN-FINDING: property={prop} {k.get('what', k['signature'])}")
     rc = 0
     reported = 0
-    for v in new_by_sig.values():
-        # a failing case is re-executed in this process and in a fresh process before it is reported
-        ok_here = _confirm_inprocess(mod, v)
-        path = write_replay(prop, v, tier, seed)
-        ok_fresh = _confirm_fresh(prop, path)
+    for kind, lst in cands.items():
+        # a failing case is re-executed in this process and in a fresh process before it is reported.  Cases that carry
+        # their own operation history are tried first; a case that only fails because of what the worker executed before it
+        # (hidden state) is replaced by another case of the same kind or, failing that, by its whole partition.
+        lst = sorted(lst, key=lambda x: 0 if (isinstance(x["case"], dict) and x["case"].get("history")) else 1)
+        v = lst[0]
+        ok_here = ok_fresh = False
+        path = None
+        for cand in lst[:6]:
+            ok_here = _confirm_inprocess(mod, cand)
+            path = write_replay(prop, cand, tier, seed)
+            ok_fresh = _confirm_fresh(prop, path)
+            v = cand
+            if ok_here and ok_fresh:
+                break
         if not ok_fresh and v.get("item") is not None:
             # the single case does not fail from a fresh process: the failure may depend on what the same partition executed
             # before it (hidden state).  The replayable artefact then is the partition = the whole operation sequence.
